@@ -198,7 +198,7 @@ def nested_world(rng, prefix, layers=None, nmods=(1, 4), depth=(0, 3),
                  tests_per_class=(1, 3), classes_per_suite=(1, 2),
                  kinds=('pass',), layouts=('tests_pkg', 'tests_file',
                                            'nested_pkg'),
-                 p_unit_mod=0.0):
+                 p_unit_mod=0.0, p_flat=0.0):
     """A world with several modules whose test_suite() returns suites nested
     to the given depth, with layer/level declared (or not) at every depth and
     on the class."""
@@ -229,6 +229,8 @@ def nested_world(rng, prefix, layers=None, nmods=(1, 4), depth=(0, 3),
     def mk_suite(d):
         node = {'t': 'suite', 'ch': []}
         decl(node)
+        if p_flat and rng.random() < p_flat:
+            node['flat'] = True
         if d <= 0:
             for _ in range(rng.randint(*classes_per_suite)):
                 node['ch'].append(mk_class())
@@ -250,10 +252,31 @@ def nested_world(rng, prefix, layers=None, nmods=(1, 4), depth=(0, 3),
             name = '%s_p%d.sub%d.tests.test_n%d' % (prefix, i % 2, i, i)
         m = {'name': name, 'file': name.replace('.', '/') + '.py',
              'suite': mk_suite(rng.randint(*depth))}
+        if p_flat:
+            _instance_decls(rng, m['suite'], lnames, levels, p_layer,
+                            p_level)
         m['suite'].pop('dummy', None)
         mods.append(m)
     return {'prefix': prefix, 'layers_module': prefix + '_layers',
             'layers': layers, 'modules': mods}
+
+
+def _instance_decls(rng, node, lnames, levels, p_layer, p_level):
+    """Tests in flat suites sometimes declare layer / level on the test
+    instance itself."""
+    if node['t'] != 'suite':
+        return
+    for ch in node.get('ch', []):
+        if ch['t'] == 'class' and node.get('flat'):
+            for ts in ch['tests']:
+                if rng.random() < p_layer * 0.6:
+                    ts['ilayer'] = rng.choice(lnames + ['UNIT'])
+                if rng.random() < p_level * 0.6:
+                    lv = rng.choice(levels)
+                    if lv is not None:
+                        ts['ilevel'] = lv
+        else:
+            _instance_decls(rng, ch, lnames, levels, p_layer, p_level)
 
 
 def all_test_ids(spec):
